@@ -162,7 +162,17 @@ def _prof_layout(g, n):
             b = max(g.pick([size - 1, size, size, size, size + 1]), 0)
             inside = g.r.randint(0, max(size - 1, 0))
             shape = g.pick(["bare_bool", "bare_bool", "bool_range", "uint_1", "uint_cross", "empty", "rev_bool", "rev_bool",
-                            "rev_uint", "bool_wide", "bool_conv", "nested_later", "nested_earlier", "very_wide"])
+                            "rev_uint", "bool_wide", "bool_conv", "nested_later", "nested_earlier", "very_wide", "oob_overlap", "oob_overlap"])
+            force_overlap = False
+            if shape == "oob_overlap" and size >= 2:
+                # bit overlap is allowed on the object: fields may overlap, but each must still end inside the size -
+                # also one that does not have the highest start bit
+                force_overlap = True
+                flag_at = g.r.randint(1, size - 1)
+                fields = [{"name": "raw", "base": "uint", "start": g.r.randint(0, flag_at), "end": size + g.pick([1, 4, 8, size])},
+                          {"name": "ready", "base": "bool", "start": flag_at}]
+                if g.chance(0.5):
+                    fields.reverse()
             if shape == "very_wide":
                 # a field set larger than 128 bits with one field wider than any carrier (and narrower ones next to it)
                 size = g.pick([136, 160, 200, 256])
@@ -255,6 +265,8 @@ def _prof_layout(g, n):
             o["byte_order"] = g.pick(["LE", "BE"])
         if g.chance(0.25):
             o["allow_bit_overlap"] = g.chance(0.8)
+        if mode >= 0.8 and force_overlap:
+            o["allow_bit_overlap"] = True
         if g.chance(0.3):
             o["bit_order"] = g.pick(["LSB0", "MSB0"])
         out.append(case({"config": cfg, "objects": [o]}, pick_syntax(g, (6, 3, 1, 1)), "layout"))
@@ -416,6 +428,27 @@ def _prof_enum(g, tier):
             cfgs = [g.pick([None, "ca", "cb"]) for _k in range(n)]
         out.append(enum_case(w, vals, g.chance(0.15), syntax=pick_syntax(g), cfgs=cfgs,
                              reuse=((g.r.randint(1, w + 1), False) if g.chance(0.2) else None)))
+    # two inline enums in one register: each is analysed on its own, whatever the other looks like and whichever comes first
+    for _ in range(900 if thorough else 150):
+        w1, w2 = g.r.randint(1, 3), g.r.randint(1, 3)
+        def one(w, kind):
+            full = [str(v) for v in range(1 << w)]
+            if kind == "fallback":
+                vs = full[: g.r.randint(1, len(full))] + [g.pick(["default", "catch_all"])]
+                if len(vs) > (1 << w):
+                    vs = vs[-(1 << w):]
+                return vs
+            if kind == "total":
+                return full
+            return full[: max(1, len(full) - g.r.randint(1, len(full) - 1))] if len(full) > 1 else full[:1]   # partial
+        k1, k2 = g.pick([("fallback", "partial"), ("partial", "fallback"), ("total", "partial"), ("fallback", "total"), ("partial", "partial")])
+        t1, t2 = g.chance(0.2), g.chance(0.2)
+        c = enum_case(w1, one(w1, k1), t1, syntax=pick_syntax(g))
+        reg = [o for o in c["adef"]["objects"] if o["kind"] == "register"][0]
+        reg["fields"].append({"name": "h", "base": "uint", "start": w1, "end": w1 + w2,
+                              "conversion": {"enum": {"name": "En2", "variants": [{"name": "W%d" % i, "value": v} for i, v in enumerate(one(w2, k2))]}, "try": t2}})
+        reg["size_bits"] = w1 + w2
+        out.append(c)
     # signed fields: numbers may be negative; the analysis still reasons over 0 ..= 2^w - 1
     for _ in range(3000 if thorough else 160):
         w = g.r.randint(1, 3)
@@ -888,10 +921,17 @@ def prof_cmdshape(g, n):
                         o["fields_" + side] = []
                 if max(o.get("size_bits_in", 0), o.get("size_bits_out", 0)) > 8:
                     o["byte_order"] = g.pick(["LE", "BE"])
+            if g.chance(0.3) and not o.get("basic"):      # the basic form `command X = n` has no repeat
+                o["address"] = str(20 * (k + 1))
+                o["repeat"] = {"count": str(g.r.randint(1, 3)), "stride": str(g.r.randint(1, 3))}
             objs.append(o)
-        if g.chance(0.4):
+        if g.chance(0.5):
             t = g.pick(objs)
-            objs.append({"kind": "ref", "name": "Alias", "target": t["name"], "override": {"kind": "command", "address": "9"}})
+            ov = {"kind": "command", "address": "100"}
+            if g.chance(0.5):
+                # the ref's own repeat wins over the target's (and a ref without one inherits the target's)
+                ov["repeat"] = {"count": str(g.r.randint(1, 4)), "stride": str(g.r.randint(4, 6))}
+            objs.append({"kind": "ref", "name": "Alias", "target": t["name"], "override": ov})
         cfg = {"command_address_type": "u8", "register_address_type": "u8"}
         out.append(case({"config": cfg, "objects": objs}, pick_syntax(g, (3, 3, 2, 2)), "cmdshape"))
     return out
@@ -1165,17 +1205,21 @@ def common_fragment_adef(g, rich=True):
         cfg["defmt_feature"] = "defmt-03"
     if g.chance(0.2):
         cfg["name_word_boundaries"] = g.pick([["Underscore"], ["Underscore", "Hyphen", "LowerUpper"], ["Underscore", "LowerUpper", "UpperLower", "Acronym"]])
-    return {"config": cfg, "objects": objs}
+    adef = {"config": cfg, "objects": objs}
+    # how the same definition is written down (renderer-level choices, invisible to the model):
+    # radix of non-negative integers where the syntax has a choice (JSON has none)
+    adef["num_style"] = g.pick(["dec", "dec", "hex", "bin", "mixed", "mixed"])
+    if g.chance(0.4):
+        adef["spell"] = "alt"          # inclusive ranges (DSL), ReadWrite / ReadOnly / WriteOnly (all syntaxes)
+    if g.chance(0.35):
+        adef["config_pos"] = g.pick(["middle", "last"])   # manifests are maps: `config` need not be the first key
+    return adef
 
 
 def prof_four_syntaxes(g, n):
     out = []
     for i in range(n):
         adef = common_fragment_adef(g)
-        # how non-negative integers are spelled where the syntax has a choice (hex / binary literals; JSON has none)
-        adef["num_style"] = g.pick(["dec", "dec", "hex", "bin", "mixed", "mixed"])
-        if g.chance(0.4):
-            adef["spell"] = "alt"     # inclusive ranges (DSL), ReadWrite / ReadOnly / WriteOnly (all syntaxes)
         for syn in SYNTAXES:
             out.append(case(copy.deepcopy(adef), syn, "four", group=i, want_mir=True, want_tokens=True))
     return out
